@@ -2297,3 +2297,131 @@ class MustacheFamily(Family):
     def bounded_source(cls, prog, fname):
         return 'mustache', cls.source(), ('all sequences of up to 4 template lexemes over a 17-lexeme alphabet (text, variables, escaped variables, comments, sections in '
                                           'every spelling, section ends by name and anonymous, three malformed tags) x 3 variable maps, against a reference recogniser and renderer')
+
+
+HISTORY_TEST = r'''package test_calculator
+
+import (
+	"fmt"
+	"strings"
+	"testing"
+
+	"github.com/pip-services3-gox/pip-services3-expressions-gox/calculator"
+	ctok "github.com/pip-services3-gox/pip-services3-expressions-gox/calculator/tokenizers"
+	"github.com/pip-services3-gox/pip-services3-expressions-gox/calculator/variables"
+	"github.com/pip-services3-gox/pip-services3-expressions-gox/csv"
+	"github.com/pip-services3-gox/pip-services3-expressions-gox/io"
+	"github.com/pip-services3-gox/pip-services3-expressions-gox/mustache"
+	mtok "github.com/pip-services3-gox/pip-services3-expressions-gox/mustache/tokenizers"
+	"github.com/pip-services3-gox/pip-services3-expressions-gox/tokenizers"
+	"github.com/pip-services3-gox/pip-services3-expressions-gox/tokenizers/generic"
+	"github.com/pip-services3-gox/pip-services3-expressions-gox/variants"
+)
+
+// C05 (bounded): every ordered pair of inputs from a pool that contains every registered multi-character symbol,
+// every token class, unterminated literals and non-ASCII text, fed to ONE instance, against fresh instances; the second
+// input after a complete run, after an aborted iteration, and with 0..2 HasNextToken queries before each NextToken.
+func show(ts []*tokenizers.Token) string {
+	var b strings.Builder
+	for _, t := range ts { fmt.Fprintf(&b, "[%d %q %d:%d]", t.Type(), t.Value(), t.Line(), t.Column()) }
+	return b.String()
+}
+
+func drain(tk tokenizers.ITokenizer, s string, queries int) string {
+	tk.SetReader(io.NewStringScanner(s))
+	var out []*tokenizers.Token
+	for {
+		for q := 0; q < queries; q++ { tk.HasNextToken() }
+		t := tk.NextToken()
+		if t == nil { break }
+		out = append(out, t)
+		if len(out) > 200 { break }
+	}
+	return show(out)
+}
+
+func TestVerifReplay(t *testing.T) {
+	pool := []string{"a <= b", "a <> b", "a << b", "a >= b", ">> != <= <>", "x=1.5e3", "'unterminated", "\"q\"\"q\"", "/* c */ z", "// c\nz", "абв + 1",
+		"1,\"a,b\"\r\n2,c", "{{a}} t {{#b}}u{{/b}}", "t {{{c}}}", "", "   ", "-10.11", "NOT x IS NULL", "<", "<=", "=="}
+	makers := map[string]func() tokenizers.ITokenizer{
+		"generic":    func() tokenizers.ITokenizer { return generic.NewGenericTokenizer() },
+		"expression": func() tokenizers.ITokenizer { return ctok.NewExpressionTokenizer() },
+		"csv":        func() tokenizers.ITokenizer { return csv.NewCsvTokenizer() },
+		"mustache":   func() tokenizers.ITokenizer { return mtok.NewMustacheTokenizer() },
+	}
+	bad := 0
+	for name, mk := range makers {
+		for _, x := range pool {
+			for _, y := range pool {
+				want := show(mk().TokenizeBuffer(y))
+				one := mk()
+				one.TokenizeBuffer(x)
+				if got := show(one.TokenizeBuffer(y)); got != want { t.Errorf("%s tokenizer: %q after %q gives %s, a fresh one %s", name, y, x, got, want); bad++ }
+				two := mk()
+				two.SetReader(io.NewStringScanner(x))
+				two.NextToken(); two.HasNextToken()
+				if got := show(two.TokenizeBuffer(y)); got != want { t.Errorf("%s tokenizer: %q after an aborted run over %q gives %s, a fresh one %s", name, y, x, got, want); bad++ }
+				if bad > 8 { t.Fatalf("stopping after %d failures", bad) }
+			}
+			for q := 1; q <= 2; q++ {
+				if a, b := drain(mk(), x, 0), drain(mk(), x, q); a != b { t.Errorf("%s tokenizer: %q read with %d has-next queries per token gives %s, without %s", name, x, q, b, a); bad++ }
+			}
+		}
+	}
+	exprs := []string{"a + b", "A * 2", "f(a)", "a <= b", "a <> b", "a << 1", "1 +", "Max(a, 3) + B", "a + 'x'", "(", "a[0]", "NOT a"}
+	evalOf := func(c *calculator.ExpressionCalculator) string {
+		var toks []string
+		for _, rt := range c.ResultTokens() { toks = append(toks, fmt.Sprintf("%d:%s", rt.Type(), rt.Value().String())) }
+		vs := variables.NewVariableCollection()
+		c.CreateVariables(vs)
+		var names []string
+		for _, v := range vs.GetAll() { names = append(names, v.Name()); v.SetValue(variants.VariantFromInteger(3)) }
+		r, err := c.EvaluateUsingVariables(vs)
+		return fmt.Sprint(toks, names, r, err)
+	}
+	for _, x := range exprs {
+		for _, y := range exprs {
+			fresh := calculator.NewExpressionCalculator()
+			fresh.SetAutoVariables(false)
+			e1 := fresh.SetExpression(y)
+			want := fmt.Sprint(e1) + evalOf(fresh)
+			one := calculator.NewExpressionCalculator()
+			one.SetAutoVariables(false)
+			one.SetExpression(x)
+			evalOf(one)
+			e2 := one.SetExpression(y)
+			if got := fmt.Sprint(e2) + evalOf(one); got != want { t.Errorf("calculator: %q after %q gives %s, a fresh one %s", y, x, got, want); bad++ }
+		}
+	}
+	tpls := []string{"a {{x}} b", "{{#x}}in{{/x}}", "{{^y}}no{{/y}} {{x}}", "{{#x}}", "t", "{{{Z}}}{{! c }}"}
+	for _, x := range tpls {
+		for _, y := range tpls {
+			vars := map[string]string{"x": "1", "z": "<\"/>"}
+			fresh := mustache.NewMustacheTemplate()
+			e1 := fresh.SetTemplate(y)
+			r1, e1b := fresh.EvaluateWithVariables(vars)
+			one := mustache.NewMustacheTemplate()
+			one.SetTemplate(x)
+			one.EvaluateWithVariables(vars)
+			e2 := one.SetTemplate(y)
+			r2, e2b := one.EvaluateWithVariables(vars)
+			if fmt.Sprint(e1, r1, e1b) != fmt.Sprint(e2, r2, e2b) { t.Errorf("template: %q after %q gives %v, a fresh one %v", y, x, fmt.Sprint(e2, r2, e2b), fmt.Sprint(e1, r1, e1b)); bad++ }
+		}
+	}
+}
+'''
+
+
+@family(r'AbstractTokenizer\)\.(SetReader|HasNextToken)|ExpressionParser\)\.Clear|MustacheParser\)\.Clear')
+class HistoryFamily(Family):
+    @classmethod
+    def source(cls):
+        return HISTORY_TEST
+
+    def test_source(self, vals):
+        return 'test/calculator', self.source()
+
+    @classmethod
+    def bounded_source(cls, prog, fname):
+        return 'test/calculator', cls.source(), ('all ordered pairs from a pool of 21 inputs x 4 tokenizers (after a complete run and after an aborted one; 0..2 has-next queries per token), '
+                                                    '12 x 12 expressions on one calculator, 6 x 6 templates on one template instance, each against fresh instances')
